@@ -281,6 +281,13 @@ pub fn bases(seed: u64, thorough: bool) -> Vec<(String, Vec<u8>)> {
             ..Default::default()
         }),
     ));
+    v.push(("builder:prefix+zip64-eocd-forced".into(), b(Spec { prefix: vec![0x5a; 777], entries: vec![e(b"pz", 8)], force_zip64_eocd: true, comment: b"pzc".to_vec(), ..Default::default() })));
+    v.push(("builder:prefix+zip64-eocd-forced-empty".into(), b(Spec { prefix: vec![0x5a; 50], force_zip64_eocd: true, ..Default::default() })));
+    v.push((
+        "builder:prefix+long-file-comments".into(),
+        b(Spec { prefix: vec![0x5a; 300], entries: vec![ESpec { comment: vec![b'c'; 400], ..e(b"fc1", 8) }, ESpec { comment: vec![b'd'; 900], central_extra: extra_block(0x7777, &[1u8; 200]), ..e(b"fc2", 0) }], comment: b"with file comments".to_vec(), ..Default::default() }),
+    ));
+    v.push(("builder:long-file-comments".into(), b(Spec { entries: vec![ESpec { comment: vec![b'c'; 2000], ..e(b"lc", 8) }], ..Default::default() })));
     v.push(("builder:trailing-garbage".into(), b(Spec { entries: vec![e(b"t", 8)], comment: b"tc".to_vec(), trailing: vec![0xee; 300], ..Default::default() })));
     v.push(("builder:reordered-cd+gaps".into(), b(Spec { entries: vec![e(b"g1", 0), ESpec { gap_before: 9, ..e(b"g2", 8) }], cd_order: Some(vec![1, 0]), gap_before_cd: 4, ..Default::default() })));
     v.push(("builder:method-14".into(), b(Spec { entries: vec![ESpec { raw_payload: Some(b"opaque".to_vec()), content: vec![], ..e(b"lzma", 14) }, e(b"ok", 8)], ..Default::default() })));
